@@ -280,7 +280,8 @@ impl EqualityConstraint {
     /// // Normalizes to: -2x + y - 3z = 4
     /// ```
     pub fn new(coefficients: Vec<f64>, rhs: f64) -> EqualityConstraint {
-        match float_lt(rhs, 0.0) {
+        // any negative right-hand side is flipped, however small
+        match rhs < 0.0 {
             true => EqualityConstraint {
                 coefficients: coefficients.iter().map(|c| c * -1.0).collect(),
                 rhs: -rhs,
